@@ -15,7 +15,60 @@ let vres = function Some true -> "1" | Some false -> "0" | None -> "ERR"
 let in_range v = BZ.geq v BZ.one && BZ.lt v secp_n
 let last_byte sg = match List.rev sg with b :: _ -> [b] | [] -> []
 
+(* ---- sessions.  signseq <mode> <d:msg:k|-:ht:form> ...      -> answers joined by ';'
+                   vseq <mode> <src> <step> ...                 -> "ERR" (no object) | verdicts joined by ','
+   src  = S|C:d:msg:k|-:ht:form | P:how:sig:keyarg|- | V:r:s:dg|*:keyarg|- | N:form:sig (steps may end in :sig)
+   step = <entry><dgform>:<dg|*>:<keyarg|*>       keyarg = K|H|B|X|Y|T<sec hex>  V|W<decimal private key> *)
+let colon t = String.split_on_char ':' t
+let sign_ans = function
+  | Some ((r, s), der) -> str_z r ^ " " ^ str_z s ^ " " ^ hex_of_bytes der
+  | None -> "ERR"
+let sign_req_of t = match colon t with
+  | [d; m; k; ht; form] when form.[0] <> 'U' ->
+      { sq_d = z_of d; sq_msg = bytes_of_hex m; sq_k = kopt k; sq_ht = z_of ht }
+  | _ -> failwith "sign step"
+let key_arg_of t =
+  let body = String.sub t 1 (String.length t - 1) in
+  match t.[0] with
+  | 'K' | 'H' -> KObj (bytes_of_hex body)
+  | 'B' -> KBytes (bytes_of_hex body)
+  | 'X' | 'Y' -> KText (bytes_of_hex body)
+  | 'T' -> KPoint (BZ.zero, BZ.zero)
+  | 'V' | 'W' -> KPriv (z_of body)
+  | _ -> failwith "key arg"
+let opt_key t = if t = "*" || t = "-" then None else Some (key_arg_of t)
+let opt_dg t = if t = "*" then None else Some (bytes_of_hex t)
+let step_of t = match colon t with
+  | [_; dg; ka] -> (opt_dg dg, opt_key ka)
+  | _ -> failwith "verify step"
+let src_of t = match colon t with
+  | ("S" | "C") :: rest -> SrcSign (sign_req_of (String.concat ":" rest))
+  | ["P"; _; sg; ka] -> SrcBytes (bytes_of_hex sg, opt_key ka)
+  | ["V"; r; s; dg; ka] -> SrcValues (z_of r, z_of s, opt_dg dg, opt_key ka)
+  | _ -> failwith "source"
+
 let dispatch = function
+  | "signseq" :: _ :: steps ->
+      String.concat ";" (List.map sign_ans (lib_sign_session (List.map sign_req_of steps)))
+  | "vseq" :: _ :: src :: steps when String.length src > 1 && src.[0] = 'N' ->
+      (match colon src with
+       | [_; _; sg] ->
+           let sg = bytes_of_hex sg in
+           String.concat "," (List.map (fun t ->
+             (* a step may carry its own encoded signature as a 4th field *)
+             let t, sg = match colon t with
+               | [h; dg; ka; own] -> (String.concat ":" [h; dg; ka], bytes_of_hex own)
+               | _ -> (t, sg) in
+             match step_of t with
+             | (Some dg, Some ka) -> vres (lib_verify_arg dg sg ka)
+             | _ -> failwith "omitted argument without an object") steps)
+       | _ -> "BADREQ")
+  | ["vsteppre"; r; s; dg; ka] ->      (* one step on the tree before fix C13-3 *)
+      vres (lib_verify_step_prefix (z_of r) (z_of s) (bytes_of_hex dg) (key_arg_of ka))
+  | "vseq" :: _ :: src :: steps ->
+      (match lib_verify_session (src_of src) (List.map step_of steps) with
+       | None -> "ERR"
+       | Some l -> String.concat "," (List.map vres l))
   | ["sign"; d; m; "-"; ht; form] when form.[0] = 'U' ->
       (match lib_sign_upper (z_of d) (bytes_of_hex m) (z_of ht) with
        | Some ((r, s), der) -> str_z r ^ " " ^ str_z s ^ " " ^ hex_of_bytes der
